@@ -78,6 +78,8 @@ struct Scenario {
   bool longSilence = true;
   int stepCap = 0;             // read calls per execution before the run is cut (0 = default 600)
   bool lateEcho = true;        // offer 'echo arrives after the read timed out' at every echo
+  bool staleArb = false;       // enhanced: offer an unsolicited STARTED / FAILED frame for the own address at every read
+                               // (the stale answer to an earlier START); only where no write-entitlement monitor runs
   Bytes alphabet = {0x00, 0x01, 0xFF, 0xA9, 0xAA, 0x10, 0xFE, 0x55};
   Bytes contenders = {0x00, 0x01, 0x11, 0x30, 0x21};  // wire value seen at the arbitration slot
   Script winnerTelegram;       // what a winning contender continues with (without its QQ)
